@@ -169,11 +169,12 @@ RunCompiled(cc, g, obj, host, fuel) ==
 
 \* the observable record b agrees with the reference record a: nothing is demanded where either is
 \* unconstrained or where the reference ran out of fuel (b running out of fuel when the reference did
-\* not is a disagreement); the variables left are compared when the run ended normally
+\* not is a disagreement); the variables left are compared too - after a failed run they are what
+\* the run had assigned up to the failure
 Agree(a, b) ==
   \/ IsSkip(a.out) \/ IsSkip(b.out)
   \/ a.out[1] = "DIVERGE"
   \/ /\ a.out = b.out
      /\ a.calls = b.calls
-     /\ (IsErr(a.out) \/ a.g = b.g)
+     /\ a.g = b.g
 =============================================================================
